@@ -1,1 +1,1 @@
-import Model
+import Proofs.Cells
